@@ -165,6 +165,9 @@ func acceptedShapeAtoms() []OutsideAtom {
 		dc("generic_two", "func ID_pick[T any, U any](x T, y U) T {\n\treturn x\n}\n\nfunc ID_fn(a uint64) uint64 {\n\treturn ID_pick[uint64, bool](a, true) + 1\n}"),
 		dc("init_func", "var ID_g uint64 = 1\n\nfunc init() {\n}\n\nfunc ID_fn(a uint64) uint64 {\n\treturn a + ID_g\n}"),
 		dc("method_named_like_func", "type ID_t struct {\n\tv uint64\n}\n\nfunc Get(a uint64) uint64 {\n\treturn a + 1\n}\n\nfunc ID_look(a uint64) uint64 {\n\treturn Get(a) * 2\n}\n\nfunc (t *ID_t) Get() uint64 {\n\treturn t.v\n}\n\nfunc ID_fn(a uint64) uint64 {\n\tt := &ID_t{v: 5}\n\treturn ID_look(a) + t.Get()\n}"),
+		dc("user_type_named_mutex", "type Mutex struct {\n\tn uint64\n}\n\nfunc (m *Mutex) Lock() {\n\tm.n = m.n + 1\n}\n\nfunc (m *Mutex) Unlock() {\n\tm.n = m.n + 10\n}\n\nfunc ID_fn(a uint64) uint64 {\n\tm := &Mutex{n: a}\n\tm.Lock()\n\tm.Unlock()\n\treturn m.n\n}"),
+		dc("user_type_named_waitgroup", "type WaitGroup struct {\n\tleft uint64\n}\n\nfunc (w *WaitGroup) Add(d uint64) {\n\tw.left = w.left + d\n}\n\nfunc (w *WaitGroup) Done() {\n\tw.left = w.left - 1\n}\n\nfunc (w *WaitGroup) Wait() uint64 {\n\treturn w.left\n}\n\nfunc ID_fn(a uint64) uint64 {\n\tw := &WaitGroup{}\n\tw.Add(a + 2)\n\tw.Done()\n\treturn w.Wait()\n}"),
+		dc("user_type_named_cond", "type Cond struct {\n\tk uint64\n}\n\nfunc (c *Cond) Signal() {\n\tc.k = c.k + 1\n}\n\nfunc (c *Cond) Broadcast() {\n\tc.k = c.k * 2\n}\n\nfunc (c *Cond) Wait() {\n\tc.k = c.k + 100\n}\n\nfunc ID_fn(a uint64) uint64 {\n\tc := &Cond{k: a}\n\tc.Signal()\n\tc.Broadcast()\n\tc.Wait()\n\treturn c.k\n}"),
 		dc("iface_call_compound_args", "type ID_shape interface {\n\tarea() uint64\n}\n\ntype ID_sq struct {\n\ts uint64\n}\n\nfunc (q ID_sq) area() uint64 {\n\treturn q.s * q.s\n}\n\nfunc ID_dbl(v uint64) uint64 {\n\treturn v * 2\n}\n\nfunc ID_scaled(s ID_shape, k uint64, j uint64) uint64 {\n\treturn s.area()*k + j\n}\n\nfunc ID_fn(a uint64) uint64 {\n\tsq := ID_sq{s: 3}\n\treturn ID_scaled(sq, a+1, ID_dbl(a)) + ID_scaled(sq, ID_dbl(a), a*3)\n}"),
 		dc("iface_call_two_structs", "type ID_shape interface {\n\tarea() uint64\n}\n\ntype ID_sq struct {\n\ts uint64\n}\n\nfunc (q ID_sq) area() uint64 {\n\treturn q.s * q.s\n}\n\nfunc ID_both(k uint64, s ID_shape, t ID_shape) uint64 {\n\treturn s.area()*k + t.area()\n}\n\nfunc ID_fn(a uint64) uint64 {\n\treturn ID_both(a+1, ID_sq{s: 3}, ID_sq{s: a})\n}"),
 		dc("iface_method_compound_args", "type ID_acc interface {\n\tadd(a uint64, b uint64) uint64\n}\n\ntype ID_s struct {\n\tv uint64\n}\n\nfunc (s *ID_s) add(a uint64, b uint64) uint64 {\n\treturn s.v + a*10 + b\n}\n\nfunc ID_use(i ID_acc, a uint64) uint64 {\n\treturn i.add(a+1, a*2) + 1\n}\n\nfunc ID_fn(a uint64) uint64 {\n\treturn ID_use(&ID_s{v: 100}, a)\n}"),
